@@ -66,13 +66,44 @@ def misspell(rng, name):
     return name[:i] + ("z" if name[i] != "z" else "y") + name[i + 1:]
 
 
-def check(rng, m, w):
+def named_scopes(w, out):
+    """every active named scope object of the tree `w` (any depth, every block of a re-opened scope, every instance of a
+    .multiple scope); templates and disabled objects are not extraction roots"""
+    for o in w.objects:
+        if o.is_scope and not o.is_disabled and o.is_template == 0:
+            out.append(o)
+            named_scopes(o, out)
+    return out
+
+
+def named_roots(rng, m, w):
+    """extraction roots other than the unnamed parse()/fetch() result: `extract()` is a public method of EVERY scope.
+    Yields (route, scope object, declaring scope, the name the root reports); every node below must report paths starting with that name.
+    Routes: an object of some scope's .objects list, the same reached by get_without_substitution(full path), and a
+    scope built through the API (freephil.scope(name=..., objects=...)) around the objects of the whole tree."""
+    cands = named_scopes(w, [])
+    if cands:
+        # prefer roots that have scopes below them (the clause is about nodes BELOW the root), but keep leaves too
+        deep = [c for c in cands if any(o.is_scope and not o.is_disabled and o.is_template == 0 for o in c.objects)]
+        o = rng.choice(deep) if deep and rng.random() < 0.8 else rng.choice(cands)
+        yield "objects[i]", o, o, o.name
+        o2 = rng.choice(cands)
+        hits = [h for h in w.get_without_substitution(o2.full_path()) if any(h is c for c in cands)]
+        if hits:
+            h = rng.choice(hits)
+            yield "get_without_substitution(%r)[k]" % o2.full_path(), h, h, h.name
+    name = rng.choice(["root_x", "prog", "a"])
+    yield "freephil.scope(name=%r, objects=<objects of the tree>)" % name, freephil.scope(name=name, objects=list(w.objects)), m, name
+
+
+def check(rng, m, w, base=""):
+    """`w` is the scope object extract() is called on, `m` the scope declaring its content, `base` the name `w` carries"""
     ex = w.extract()
     all_nodes = []
-    nodes(ex, m, "", all_nodes)
+    nodes(ex, m, base, all_nodes)
     # values of every kind a program may assign, incl. extracted scopes taken from ANOTHER extraction of the same tree
     donors = []
-    nodes(w.extract(), m, "", donors)
+    nodes(w.extract(), m, base, donors)
     for node, ms, path in all_nodes:
         got = node.__phil_path__()
         if (got or "") != path:
@@ -127,7 +158,7 @@ def check(rng, m, w):
     pristine = _fetch.dump(w.extract())
     victim = w.extract()
     vn = []
-    nodes(victim, m, "", vn)
+    nodes(victim, m, base, vn)
     for node, ms, path in vn:
         seen = set()
         for c in ms.objects:
@@ -186,6 +217,19 @@ def run(ctx):
                 f = ident
             elif ident is not None:
                 ctx.count("extractions_handing_out_word_lists")
+        if not f:
+            # impl-only stream (the Lean model extracts from the unnamed root only): the same clauses on extractions
+            # whose root is a NAMED scope object; expected paths = the root's own name + the path below it
+            for route, ws, ms, base in named_roots(rng, m, w):
+                ctx.count("named_root_extractions_impl_only")
+                try:
+                    g = check(rng, ms, ws, base)
+                except BaseException as e:
+                    g = "check raised %s: %s" % (type(e).__name__, str(e)[:100])
+                if g:
+                    ctx.fail(dict(case, extraction_root=route, root_name=base),
+                             "extract() of the named scope %r reached as %s: %s" % (base, route, g))
+                    break
         if f:
             ctx.fail(case, f, finding=["D9"] if _fetch.has_nested_further(tree) else None)
         paths = []
